@@ -207,6 +207,9 @@ impl Family for Truncated {
     fn is_shallow(&self, i: usize) -> bool {
         self.base.is_shallow(i)
     }
+    fn include(&self, i: usize) -> bool {
+        self.base.include(i)
+    }
 }
 
 pub fn families(kind: Kind, tier: Tier) -> Vec<Box<dyn Family>> {
@@ -239,8 +242,8 @@ pub fn families(kind: Kind, tier: Tier) -> Vec<Box<dyn Family>> {
             v.push(Box::new(level3_slice(false)));
         }
         (_, Tier::Thorough) => {
-            v.push(Box::new(core_thorough()));
             v.push(Box::new(core_wide()));
+            v.push(Box::new(core_thorough_extra()));
             v.push(Box::new(side_family(true)));
             v.push(Box::new(core_other_universe(1, true)));
             v.push(Box::new(core_other_universe(2, true)));
@@ -250,7 +253,7 @@ pub fn families(kind: Kind, tier: Tier) -> Vec<Box<dyn Family>> {
             v.push(Box::new(UnaryOver { base: Box::new(core_quick()), uops: uops_quick(), stride: 1 }));
             let q = core_quick();
             let small: Vec<Arc<P>> = q.l1.iter().take(60).cloned().collect();
-            v.push(Box::new(BinaryWith { small, base: Box::new(core_quick()), stride: 97, offset: 405 }));
+            v.push(Box::new(BinaryWith { small, base: Box::new(core_quick()), stride: 97, offset: 405 + 3240 }));
             v.push(Box::new(level3_slice(true)));
         }
     }
@@ -290,7 +293,7 @@ impl Engine for RegexEngine {
 
     fn meta(&self, ctx: &Ctx) -> Meta {
         let fams = families(self.kind, ctx.tier);
-        let space = fams.iter().map(|f| format!("{}: {} programs", f.name(), f.len())).collect::<Vec<_>>().join("; ");
+        let space = fams.iter().map(|f| format!("{}: {} indices (indices whose program already belongs to another family are skipped; 'programs' counts what was evaluated)", f.name(), f.len())).collect::<Vec<_>>().join("; ");
         let (level, rule) = match self.kind {
             Kind::C01 => ("model_checking", "every construction program of the listed families is built through ReManager and through the SMT-LIB wrappers; product BFS of the term's derivative graph with the reference DFA of the program, on 8+ representative characters (both end points of every region); nullable == acceptance in every product state, str_in_re called on the shortest word of every product state; non-trivial = programs whose product has >= 2 states"),
             Kind::C02 => ("model_checking", "compile(e) and try_compile(e, exact bound) for every program; product BFS automaton x reference DFA; totality of next() on representative and boundary characters of every state; accepts/str_next on the shortest word of every product state; full 196608-character sweeps for level-1 automata; non-trivial = automata with >= 2 states"),
@@ -374,7 +377,7 @@ impl Engine for RegexEngine {
 /// history-dependent case), violations are reported for that index only.
 fn run_chunk(kind: Kind, tier: Tier, fi: usize, f: Box<dyn Family>, lo: usize, hi: usize, only: Option<usize>, rep: &mut Report) {
     // programs are generated here (the family is not Send), the checks run in the thread
-    let progs: Vec<(usize, P, bool)> = (lo..hi).map(|i| (i, f.get(i), f.is_shallow(i))).collect();
+    let progs: Vec<(usize, P, bool)> = (lo..hi).filter(|&i| f.include(i)).map(|i| (i, f.get(i), f.is_shallow(i))).collect();
     let u = f.universe().clone();
     let r = std::thread::Builder::new()
         .stack_size(256 << 20)
